@@ -105,7 +105,12 @@ def run(ctx):
     cf = fx.fn_opt("crypto::calculate_key_id")
     sf = fx.fn_opt("crypto::shim_public_key")
     if cf and sf:
-        cb = body_of(fx, cf["key"])
+        cb = ctx.region(None, policy="private", key=cf["key"])
+        # the shim may be built in a module-private helper: look through private callees (shim_public_key itself stays a call)
+        from ..cg import inline_region
+        from ..core import Body as _B
+        pol = lambda fn: fn["kind"] in ("Fn", "AssocFn") and not fn.get("impl_trait") and fn.get("vis") != "Public" and fn["path"] not in ("crypto::shim_public_key",)
+        cb = _B(inline_region(fx, cf["key"], 4, pol))
         ctx.touch_body(cb)
         sc = cb.calls_named("crypto::shim_public_key")
         oks = len(sc) == 1
@@ -124,7 +129,11 @@ def run(ctx):
             for l in cb.trace(t["args"][0]):
                 alg.add(l.data.get("static") if l.kind == "const" else "?")
         ctx.inst("C12/D2", "hashed with SHA-256", alg == {"ring::digest::SHA256"}, "digest algorithm(s): %s" % sorted(alg), cf["at"])
-        idl = [l for (p, bb, exp, rv) in shared.agg_sites(fx, "crypto::KeyId") if p == "crypto::calculate_key_id" for l in cb.trace(rv["ops"][0])]
+        idl = []
+        for i_ in sorted(cb.reach):
+            for st_ in cb.blocks[i_]["stmts"]:
+                if st_["k"] == "assign" and st_["rv"].get("adt") == "crypto::KeyId":
+                    idl += cb.trace(st_["rv"]["ops"][0])
         okid = bool(idl) and all(l.kind == "call" and callee_name(l.data[1]) == "data_encoding::Encoding::encode" for l in idl)
         if okid:
             for l in idl:
